@@ -105,7 +105,7 @@ def run_many(fn, items, workers=None):
 # TLC
 
 FAIL_RE = re.compile(r'^"FAIL\|(\d+)\|\{(.*)\}"\s*$')
-NOTE_RE = re.compile(r'^<<"NOTE", (.*)>>\s*$')
+NOTE_RE = re.compile(r'^"NOTE\|(.*)"\s*$')
 
 
 class TlcResult:
